@@ -167,6 +167,13 @@ def desugar(prog, fn, max_sites=24):
             if b in skip:
                 continue
             cal = c.get("callee") or ""
+            if cal.endswith("<impl bool>::then_some") and len(c["args"]) == 2 and c.get("target") is not None and b not in skip:
+                bj = c["args"][0].get("mv") or c["args"][0].get("cp")
+                if bj is not None:
+                    site = (b, c, "then_some", bj, None, None, None)
+                    break
+                skip.add(b)
+                continue
             spec = next((v for k, v in COMBINATORS.items() if cal.endswith(k)), None)
             if spec is None or len(c["args"]) != 2 or c.get("target") is None:
                 continue
@@ -188,6 +195,22 @@ def desugar(prog, fn, max_sites=24):
             break
         if site is None:
             break
+        if site[2] == "then_some":
+            # `c.then_some(v)` == `if c { Some(v) } else { None }` (v is evaluated either way: it already is an operand)
+            b, c, _, bj, _, _, _ = site
+            fj = copy.deepcopy(cur.j)
+            ln = fj["blocks"][b]["t"].get("ln")
+            call = fj["blocks"][b]["t"]["call"]
+            dest, tgt = call["dest"], call["target"]
+            fj["blocks"].append({"s": [{"a": copy.deepcopy(dest), "rv": {"agg": "adt", "adt": _OPT[0], "variant": "Some", "fnames": ["0"], "fields": [copy.deepcopy(call["args"][1])]}, "ln": ln}],
+                                 "t": {"goto": tgt, "ln": ln}})
+            fj["blocks"].append({"s": [{"a": copy.deepcopy(dest), "rv": {"agg": "adt", "adt": _OPT[0], "variant": "None", "fnames": [], "fields": []}, "ln": ln}],
+                                 "t": {"goto": tgt, "ln": ln}})
+            n = len(fj["blocks"])
+            fj["blocks"][b]["t"] = {"switch": copy.deepcopy(call["args"][0]), "sty": "bool", "targets": [["0", n - 1]], "otherwise": n - 2, "ln": ln}
+            cur = Fn(fn.name, fj, crate)
+            done += 1
+            continue
         b, c, ((adt, variants), run_var, gets, build), opj, cpj, cname, cj = site
         fj = copy.deepcopy(cur.j)
         ln = fj["blocks"][b]["t"].get("ln")
